@@ -308,9 +308,11 @@ def _json_roundtrip(concepts, ctx, work, rng, ignore_lattice, raw):
     if how == 0:
         COL.count('medium_json_str')
         path = os.path.join(work, f'j{rng.randrange(10**6)}.json')
-        if call(ctx.tojson, path, ignore_lattice=ignore_lattice, **kw) is RAISED:
+        enc = rng.choice(['utf-8', 'utf-16', 'utf-8', 'latin-1'])   # json escapes non-ASCII: any codec works
+        COL.count('json_encoding_' + enc)
+        if call(ctx.tojson, path, encoding=enc, ignore_lattice=ignore_lattice, **kw) is RAISED:
             return RAISED
-        return call(C.fromjson, path, raw=raw)
+        return call(C.fromjson, path, encoding=enc, raw=raw)
     if how == 1:
         COL.count('medium_json_bytes')
         path = os.path.join(work, f'j{rng.randrange(10**6)}.json').encode()
@@ -461,6 +463,17 @@ def run_case(concepts, case, spec):
     if not big:
         with core.monitor_code():
             scratch = digest(lat)
+    if not big and sl.n <= 150:
+        try:
+            c2, l2 = copy.deepcopy((ctx, lat))
+        except Exception as e:
+            COL.violation('pickle', f'deepcopy-pair:raised-{type(e).__name__}', 'a copy', repr(e))
+        else:
+            COL.count('judged_unpickled')
+            COL.count('medium_deepcopy')
+            if same_triple('deepcopy-pair', c2, sh):
+                with core.monitor_code():
+                    judge_lattice(l2, c2, sh, cap, 'deepcopied', scratch)
     for proto in ([2, 3, 4, 5] if sl.n <= 60 else [rng.choice([2, 3, 4, 5])]):
         COL.count('medium_pickle')
         for what, obj in (('context', ctx), ('pair', (ctx, lat)), ('lattice', lat)):
